@@ -96,6 +96,7 @@ void harness(void)
 		VP_REACH("with_data_cache");
 	}
 	if (a->frag_block != NULL) {
+		VP_ASSERT(b->frag_blk_size == a->frag_blk_size && VP_R_OK(b->frag_block, BS), "C19: the copy's fragment cache holds one full block like the original's");
 		for (size_t i = 0; i < BS; ++i)
 			if (i < a->frag_blk_size)
 				VP_ASSERT(a->frag_block[i] == b->frag_block[i], "cached fragment block content equal");
